@@ -352,6 +352,9 @@ func checkC08(c *core.Ctx) {
 		for _, q := range handRuleDocs {
 			docs = append(docs, docCase{text: q, intent: "hand"})
 		}
+		for _, q := range mergeFamilyDocs() {
+			docs = append(docs, docCase{text: q, intent: "merge-family"})
+		}
 		_, _, ok := validateBatch(c, devs, hs, handRuleSDL, docs, func(dc docCase, o valObs, class string, spec, real []string) {
 			if class == "crash" {
 				c.Violation(fmt.Sprintf("Validate crashed: %s on %q (hand schema)", o.Crash, dc.text), map[string]any{"sdl": handRuleSDL, "query": dc.text, "crash": o.Crash})
@@ -474,14 +477,47 @@ func cloneGT(g GT) GT {
 	return c
 }
 
+// mergeFamilyDocs: the same pair of selections compared in two contexts of one
+// document, in both orders: under mutually exclusive parents (fields p of the
+// object types A and B), side by side under one parent, and in two same-named
+// fields that are merged. The selections are spreads of fragments on C that
+// agree or disagree on one response name (field name or argument), or inline
+// equivalents. Whatever a comparison of two fragments concluded in an earlier
+// context must not leak into a later one (exhaustive: 9 context orders x 36 pairs).
+func mergeFamilyDocs() []string {
+	fragDefs := map[string]string{"...F1": "fragment F1 on C { k: c }", "...F2": "fragment F2 on C { k: d }", "...F3": "fragment F3 on C { k: c }", "...F4": "fragment F4 on C { k: j(a: 1) }", "...F5": "fragment F5 on C { k: j(a: 2) }"}
+	sels := []string{"...F1", "...F2", "...F3", "...F4", "...F5", "... on C { k: d }"}
+	ctxs := []func(x, y string) string{
+		func(x, y string) string { return "u { ... on A { p { " + x + " } } ... on B { p { " + y + " } } }" },
+		func(x, y string) string { return "cc { " + x + " " + y + " }" },
+		func(x, y string) string { return "cc { " + x + " } cc { " + y + " }" },
+	}
+	var out []string
+	for _, c1 := range ctxs {
+		for _, c2 := range ctxs {
+			for _, x := range sels {
+				for _, y := range sels {
+					frags := fragDefs[x]
+					if y != x {
+						frags += " " + fragDefs[y]
+					}
+					out = append(out, "{ "+c1(x, y)+" "+c2(x, y)+" } "+frags)
+				}
+			}
+		}
+	}
+	return out
+}
+
 const handRuleSDL = `
 directive @rep repeatable on FIELD
 directive @once on FIELD
-type Query { f(i: Int, l: [Int], ll: [[Int]], lln: [[Int]!], o: In, req: Int! = 5, nn: Int!): Int g(lnn: [Int!]!): Int  a: A  b: B  u: U  i: I  s: String  e(v: E): E any(x: Any): Any one(x: One): Int }
+type Query { f(i: Int, l: [Int], ll: [[Int]], lln: [[Int]!], o: In, req: Int! = 5, nn: Int!): Int g(lnn: [Int!]!): Int  a: A  b: B  u: U  i: I  s: String  e(v: E): E any(x: Any): Any one(x: One): Int num(fl: Float, id: ID, fls: [Float], o: Num): Int cc: C }
 interface I { x: Int }
-type A implements I { x: Int  z: Int  o: B  li: [Int]  lin: [Int]!  n: Int! }
-type B implements I { x: Int y: Int  z: String li: [Int]!  o: Int n: Int }
-type C { c: Int }
+type A implements I { x: Int  z: Int  o: B  li: [Int]  lin: [Int]!  n: Int!  p: C }
+type B implements I { x: Int y: Int  z: String li: [Int]!  o: Int n: Int  p: C }
+type C { c: Int d: Int j(a: Int): Int }
+input Num { fl: Float id: ID }
 union U = A | B
 enum E { RED GREEN }
 scalar Any
